@@ -403,7 +403,8 @@ const decGenRule = "(src, len(dst), dict, placement) from: the block grammar (to
 	"bytes; the repository's fuzz/uncompress corpus mutated. len(dst) relative to the decoded size: exact, -1, +1, +0..48, -1..24, 0, arbitrary; spare capacity {0,1,16,64,4096}; " +
 	"dictionary lengths {1,3,4,15..18,64,1000,65535,65536,70000,131072}. src, dst, dict live in mmap arenas ending (or starting) at PROT_NONE pages, canaries around dst. " +
 	"Pinned big cases (heap slices with canaries): literal runs of 2^20-1..3*2^20 followed by a match, match/literal length fields adding up to 2^32+k, overlapping matches of 26 MiB at offsets 3/7/10, " +
-	"zero runs of 4094..70000 at offset 1 followed by matches into the dictionary. "
+	"zero runs of 4094..70000 at offset 1 followed by matches into the dictionary. Tail shapes enumerated (14 364): a last sequence with literal length 0..18 x match nibble {0,1,4,13,14,15} x offset " +
+	"{1,4,7,8,16,18,40}, the block ending right after the match / with a 00 token / with five literals, the destination exact or with 1, 16, 32, 33, 48 bytes of room (as length or as spare capacity). "
 
 func TestC03Pinned(t *testing.T) {
 	stat.For("C03").SetRule(decGenRule)
